@@ -115,15 +115,16 @@ theorem cancelsL_cons (P : Prims) (d : Desc) (ds : List Desc) (s : St) :
 def PresG (V : St → List Val) (I J : St → List Nat → Prop) (f : St → CM St) (c : St → List Nat) : Prop :=
   ∀ s s' cs, f s = .ok s' → markersOk (items V s') = true → I s cs → J s' (cs ++ c s)
 
-theorem markersOk_back {V : St → List Val} {s1 s' : St} (hg : G V s1 s') (h : markersOk (items V s') = true) :
+theorem markersOk_back {V : St → List Val} {X : St → Prop} {s1 s' : St} (hg : G V X s1 s') (h : markersOk (items V s') = true) :
     markersOk (items V s1) = true := by
-  obtain ⟨_, ⟨ext, e⟩, _⟩ := hg
+  obtain ⟨_, ⟨ext, e⟩, _, _⟩ := hg
   rw [e] at h
   exact markersOk_prefix _ _ h
 
-theorem PresG.kl {V : St → List Val} {I J K : St → List Nat → Prop} {f g : St → CM St} {cf cg : St → List Nat}
+theorem PresG.kl {V : St → List Val} {X : St → Prop} {I J K : St → List Nat → Prop} {f g : St → CM St}
+    {cf cg : St → List Nat}
     (hf : PresG V I J f cf) (hg : PresG V J K g cg) (hI : ∀ s cs, I s cs → (V s).length = s.descs.length)
-    (gf : Grows V f) (gg : Grows V g) :
+    (gf : Grows V X f) (gg : Grows V X g) :
     PresG V I K (Bufr.kl f g) (fun s => cf s ++ (match f s with | .ok s1 => cg s1 | .error _ => [])) := by
   intro s s' cs h hok hi
   unfold Bufr.kl at h
@@ -139,9 +140,10 @@ theorem PresG.kl {V : St → List Val} {I J K : St → List Nat → Prop} {f g :
     rw [← List.append_assoc]
     exact this
 
-theorem PresG.iterN {V : St → List Val} {I : St → List Nat → Prop} {f : St → CM St} {c : St → List Nat}
+theorem PresG.iterN {V : St → List Val} {X : St → Prop} {I : St → List Nat → Prop} {f : St → CM St}
+    {c : St → List Nat}
     (hf : PresG V I I f c) (hI : ∀ s cs, I s cs → (V s).length = s.descs.length)
-    (gf : ∀ s0, Pres (G V s0) f) (n : Nat) :
+    (gf : ∀ s0, Pres (G V X s0) f) (n : Nat) :
     PresG V I I (iterN n f) (ghostIter f c n) := by
   induction n with
   | zero =>
@@ -166,6 +168,12 @@ theorem PresG.iterN {V : St → List Val} {I : St → List Nat → Prop} {f : St
       simp only
       rw [← List.append_assoc]
       exact this
+
+/-- the invariant `X` of the primitives rides along -/
+theorem PresG.withX {V : St → List Val} {X : St → Prop} {I J : St → List Nat → Prop} {f : St → CM St}
+    {c : St → List Nat} (h : PresG V I J f c) (hI : ∀ s cs, I s cs → (V s).length = s.descs.length) (gf : Grows V X f) :
+    PresG V (fun s cs => I s cs ∧ X s) (fun s cs => J s cs ∧ X s) f c :=
+  fun s s' cs e hok hi => ⟨h s s' cs e hok hi.1, (gf s s' (hI s cs hi.1) e).2.2.2 hi.2⟩
 
 theorem PresG.weaken {V : St → List Val} {I I' J J' : St → List Nat → Prop} {f : St → CM St} {c : St → List Nat}
     (h : PresG V I J f c) (h1 : ∀ s cs, I' s cs → I s cs) (h2 : ∀ s cs, J s cs → J' s cs) : PresG V I' J' f c :=
